@@ -19,8 +19,8 @@ CHECKS = {
     text="Along seeded edit histories (with reverts, clock jumps, -D overrides) the complete package graph dump per package path and the answers of fixed path queries must be identical between the warm project directory and a cache-free cold computation. Generated projects force the same recipe to be reached with identical environment but different inherited tools / conditional dependencies.",
     note="The cold reference disables the memo by rebinding PackageMatcher.matches; sandbox-enabled graphs and layers are not exercised."),
  "C05": dict(level="fault_enumeration", engine="loopsim", ref="5/C05",
-    technique="deterministic simulation with fault injection: script exit/kill at command k, Bob killed at numbered kill points (every state save, fs mutation, seam call), SIGINT at virtual time t; recovery compared with clean build",
-    text="One to three aborted invocations (script failure, script+Bob kill, Bob kill at sim point k, SIGINT) followed by a fault-free build that must succeed, equal the clean build and leave a consistent state; enumeration cases try every kill point of the aborted invocation (thorough) or an evenly spaced sample (quick) from the same restored workspace.",
+    technique="deterministic simulation with fault injection: script exit/kill at command k, Bob killed at numbered kill points (every state save, fs mutation, seam call, sqlite statement), SIGINT at virtual time t, failing url SCM (upstream unreachable, short write or kill inside the copy); recovery compared with clean build",
+    text="One to three aborted invocations (script failure, script+Bob kill, Bob kill at sim point k incl. statements inside sqlite transactions, SIGINT, url SCM failure of a digest-pinned SCM-only checkout) followed by a fault-free build that must succeed, equal the clean build and leave a consistent state; enumeration cases try every kill point of the aborted invocation (thorough) or an evenly spaced sample (quick) from the same restored workspace.",
     note="Kill = os._exit at an operation boundary of the Bob process (scripts run atomically at one virtual instant); power loss is C10's subject."),
  "C06": dict(level="exploration", engine="loopsim", ref="5/C06",
     technique="deterministic simulation: seeded virtual-time schedules of the real builder (-jN, -k, failing steps) with history monitors, plus the real JobServerSemaphore driven by task scripts and a foreign token user on a real pipe",
@@ -39,7 +39,7 @@ CHECKS = {
     text="After every successful invocation of seeded histories (fresh, incremental, downloaded, shared) each visited step workspace, every archive artifact and every shared package is checked: schema, complete reference closure, artifact-id = digest of record, variant-id, result-hash (uncached hash and canonical tree), build-id (recomputed), meta, dependency ids in declared order, import SCM digest.",
     note="The record schema object is taken from bob.audit as the documented structure; which workspaces an invocation visited is derived from Bob's recorded provenance (built/downloaded/shared)."),
  "C16": dict(level="exploration", engine="loopsim", ref="5/C16",
-    technique="deterministic simulation: seeded histories of variant-changing edits, dev/build and clean commands; directory map monitor, workspace-state-at-script-start seam, clean soundness model",
+    technique="deterministic simulation with fault injection: seeded histories of variant-changing edits, dev/build and clean commands, invocations killed at the k-th statement inside the sqlite refresh of the develop directory map; directory map monitor, workspace-state-at-script-start seam, clean soundness model",
     text="Along seeded histories the (kind, recipe, variant)->directory map must stay injective and stable, a directory handed to another variant must be empty when its script starts (observed at the seam), clean may only delete workspaces whose content belongs to no current package, dry-run changes nothing, and nothing up to date is rebuilt after clean.",
     note="'Content belongs to a package' is tracked by the harness as the variant of the last script executed in that workspace."),
  "C08": dict(level="fault_enumeration", engine="faulty-stream", ref="5/C08",
@@ -59,7 +59,7 @@ CHECKS = {
     text="Seeded exploration of process interleavings of the real builder share code path (_useSharedPackage/_installSharedPackage) and LocalShare.gc on one store; completeness, install-once, no collection of linked packages, accounting, LRU/quota minimality, no spurious failure, no deadlock are checked after every step / at quiescence. One genuine defect is recorded in known_findings.json.",
     note="Step objects are stubs, the build itself is a harness write; actor crashes are not part of the asserted configuration; a link created after a gc took the store lock is not counted as use (probe only)."),
  "C19": dict(level="exploration", engine="history+clock", ref="5/C19",
-    technique="deterministic simulation: model-based history simulation of an archive and its scan index (artifacts added/removed/replaced behind Bob's back) under a simulated stat clock; executable retention model as oracle",
+    technique="deterministic simulation: model-based history simulation of one archive (-l) or two configured archives sharing one scan index (-a/-b) and the index (artifacts added/removed/replaced behind Bob's back) under a simulated stat clock; executable retention model as oracle",
     text="Seeded histories of archive modifications interleaved with real `bob archive scan/find/clean` invocations; find/clean/dry-run results are compared with an independent retention model evaluated over the artifacts actually present, and clean is repeated on a copy with a fresh index. Sampling, not proof.",
     note="Ties at the LIMIT boundary accept any choice; expressions with ordering comparisons against missing fields are skipped; -n only right after a scan."),
  "C11": dict(level="exploration", engine="history+clock", ref="5/C11",
